@@ -129,7 +129,7 @@ def build(repo=REPO, verbose=True):
         if os.path.isdir(out):
             shutil.rmtree(out, ignore_errors=True)
         os.rename(tmp, out)
-        _prune(os.path.join(CACHE, "facts"), keep=64)
+        _prune(os.path.join(CACHE, "facts"), keep=int(os.environ.get("IWE_VERIF_CACHE_KEEP", "240")))
         return out, sha, {"cached": False, "wall_s": round(time.time() - t0, 2)}
     finally:
         fcntl.flock(lock, fcntl.LOCK_UN)
